@@ -122,11 +122,20 @@ fn gen_tails(_tier: Tier, emit: Emit) {
             ("try-body", vec![x(E::Try(blk(vec![x(E::If(vec![(id("c"), blk(vec![r.clone()]))], None))]), vec![CatchArm { pat: Pat::Id("e".into(), None), body: blk(vec![int(4)]) }], None))]),
             ("statement-then-if", vec![assign("t", int(5)), x(E::If(vec![(id("c"), blk(vec![r.clone()]))], None))]),
         ];
+        // the return sits inside a string / list / tuple / map under construction
+        let cond_ret = || x(E::If(vec![(id("c"), blk(vec![r.clone()]))], Some(blk(vec![int(0)]))));
+        let mut tails = tails;
+        tails.push(("in-list", vec![list(vec![int(1), cond_ret(), int(3)])]));
+        tails.push(("in-tuple", vec![tuple(vec![int(1), cond_ret()])]));
+        tails.push(("in-string", vec![interp(vec![lit("s"), hole(int(1)), lit("-"), hole(cond_ret()), lit("e")])]));
+        tails.push(("in-map", vec![map(vec![("k", int(1)), ("v", cond_ret())])]));
+        tails.push(("in-nested", vec![list(vec![interp(vec![lit("n"), hole(tuple(vec![int(1), cond_ret()]))]), int(2)])]));
         for (tname, body) in tails {
             for cval in [true, false] {
                 let prog = vec![
                     assign("f", func(&["c"], body.clone())),
                     print(tuple(vec![s("before"), callf("f", vec![boolean(cval)]), s("after")])),
+                    print(interp(vec![lit("x"), hole(callf("f", vec![boolean(cval)])), lit("y")])),
                     assign("g", func(&["c"], vec![assign("inner", func(&["c"], body.clone())), tuple(vec![callf("inner", vec![id("c")]), s("outer")])])),
                     print(callf("g", vec![boolean(cval)])),
                     print(s("end")),
@@ -134,6 +143,35 @@ fn gen_tails(_tier: Tier, emit: Emit) {
                 let _ = (rname, tname);
                 emit(Case { family: "tail-returns", prog, shape: vec![] });
             }
+        }
+    }
+    // break / continue inside a list / tuple / string / map under construction in a loop body
+    for (_en, exit) in [("break", x(E::Break(None))), ("continue", x(E::Continue))] {
+        let cond_exit = || x(E::If(vec![(cmp(id("i"), CmpOp::Eq, int(1)), blk(vec![exit.clone()]))], Some(blk(vec![int(5)]))));
+        let constructions: Vec<X> = vec![
+            list(vec![id("i"), cond_exit(), int(3)]),
+            tuple(vec![id("i"), cond_exit()]),
+            interp(vec![lit("s"), hole(id("i")), lit("-"), hole(cond_exit()), lit("e")]),
+            map(vec![("k", id("i")), ("v", cond_exit())]),
+            list(vec![interp(vec![lit("n"), hole(tuple(vec![id("i"), cond_exit()]))]), int(2)]),
+        ];
+        for c in constructions {
+            let body = vec![
+                assign("out", list(vec![])),
+                x(E::For(vec![Pat::Id("i".into(), None)], x(E::Range(Some(int(0)), Some(int(3)), false)), blk(vec![method(id("out"), "push", vec![c.clone()])]))),
+                id("out"),
+            ];
+            let prog = vec![
+                assign("f", func(&[], body.clone())),
+                print(tuple(vec![s("before"), callf("f", vec![]), s("after")])),
+                print(interp(vec![lit("x"), hole(callf("f", vec![])), lit("y")])),
+                // and in the top-level frame, inside an enclosing construction of the same frame
+                assign("out", list(vec![])),
+                x(E::For(vec![Pat::Id("i".into(), None)], x(E::Range(Some(int(0)), Some(int(3)), false)), blk(vec![method(id("out"), "push", vec![c.clone()])]))),
+                print(list(vec![int(0), id("out"), int(9)])),
+                print(s("end")),
+            ];
+            emit(Case { family: "tail-returns", prog, shape: vec![] });
         }
     }
     // discarded values: the statement has no effect, what follows still runs
@@ -149,13 +187,19 @@ fn gen_tails(_tier: Tier, emit: Emit) {
         int(5),
         null(),
         id("a"),
+        // non-local ids (prelude names)
+        id("print"),
+        id("string"),
     ];
     for d in &discarded {
-        for ctx_kind in 0..4 {
+        for ctx_kind in 0..6 {
             let prog = match ctx_kind {
                 0 => vec![assign("a", int(1)), d.clone(), print(s("after")), print(id("a"))],
                 1 => vec![assign("a", int(1)), assign("f", func(&[], vec![d.clone(), print(s("in-f")), int(9)])), print(callf("f", vec![])), print(s("end"))],
                 2 => vec![assign("a", int(1)), x(E::For(vec![Pat::Id("i".into(), None)], x(E::Range(Some(int(0)), Some(int(2)), false)), blk(vec![d.clone(), print(id("i"))]))), print(s("end"))],
+                // followed by a multi-assignment from listed values (temporary tuple) in the same frame
+                4 => vec![assign("a", int(1)), d.clone(), x(E::MultiAssign(vec![Tgt::Id("p".into()), Tgt::Id("q".into())], vec![int(2), int(3)])), print(tuple(vec![id("p"), id("q"), id("a")]))],
+                5 => vec![assign("a", int(1)), assign("f", func(&[], vec![d.clone(), x(E::MultiAssign(vec![Tgt::Id("p".into()), Tgt::Id("q".into())], vec![int(2), int(3)])), tuple(vec![id("p"), id("q"), id("a")])])), print(callf("f", vec![])), print(s("end"))],
                 _ => vec![assign("a", int(1)), x(E::If(vec![(boolean(true), blk(vec![d.clone(), print(s("in-if"))]))], None)), print(s("end"))],
             };
             emit(Case { family: "discarded-values", prog, shape: vec![] });
